@@ -19,4 +19,16 @@ PROPS = {
         "explanation": "Lean theorems (invariant preservation, alloc soundness/completeness, free/record_alloc specs) about the model; "
                        "model == implementation checked op by op incl. serialized bytes; property predicate also evaluated on the implementation alone",
     },
+    "C15": {
+        "props_module": "RedbModel.Props.C15",
+        "streams": [("pure", [], "pure")],
+        "rule": "per registered concrete key type (40 descriptors: all integer widths/signs, bool, char, (), &str, String, &[u8], &[u8;N], Uuid, "
+                "Option/array/tuple nestings two deep): sorted triples of generated values (edge values, shared prefixes, multi-byte UTF-8 "
+                "straddling the cut, None/Some mixes, 3- and 5-byte varint length prefixes); each case = one type; distinct by hash of its "
+                "lines, non-trivial if at least one strictly ordered pair (separator exercised)",
+        "trusted_base": BASE_TRUST + ["modelled, not verified: types.rs, tuple_types.rs, complex_types.rs (varint), types/uuid.rs, btree_base.rs::branch_separator"],
+        "assumptions": ["chrono types, f32/f64 (not keys) and user-defined Key impls are out of scope"],
+        "explanation": "Lean theorems: comparator laws on valid encodings, separator contract, min-key; model == implementation on compare/"
+                       "fixed_width/min_encoded_key exactly, separators judged by the decidable contract sepOk (byte equality is a statistic)",
+    },
 }
